@@ -327,6 +327,8 @@ class Gen:
         rng = self.rng
         if rng.random() < 0.22:
             return rng.choice(ODD_LEAVES)
+        if rng.random() < 0.02:
+            return {'op': 'ref', 'name': 'q', 'def': False, 'kids': []}     # no definition encloses it: KeyError
         if rng.random() < (0.25 if self.names else 0.02):
             return {'op': 'sget', 'name': rng.choice(self.names + ['w']), 'form': rng.choice('.[')}
         if isinstance(tgt, dict) and tgt:
@@ -465,6 +467,12 @@ class Gen:
 
     def g_dict(self, tgt, d):
         rng = self.rng
+        if rng.random() < 0.04:
+            # a name defined in one entry is not visible in a sibling entry
+            pairs = [('p', {'op': 'ref', 'name': 'q', 'def': True, 'kids': [self.leaf(tgt)]}),
+                     ('q', {'op': 'ref', 'name': 'q', 'def': False, 'kids': []})]
+            rng.shuffle(pairs)
+            return D(pairs)
         pairs = []
         for k in rng.sample(['p', 'q', 'r'], rng.randint(1, 3)):
             key = k
@@ -612,8 +620,15 @@ class Gen:
             if isinstance(tgt, dict):
                 nested = [k for k, v in tgt.items() if isinstance(v, dict) and isinstance(k, str) and k]
                 k = rng.choice(nested) if nested and rng.random() < 0.85 else rng.choice(KEYS)
-                body = D([('p', self.gen(tgt, max(1, d - 2))),
-                          ('q', COAL([N('tuple', [P(k), REFUSE()])], {'kind': 'arg', 'a': C(rng.choice([NONE, SKIP]))}))])
+                pairs = [('p', self.gen(tgt, max(1, d - 2))),
+                         ('q', COAL([N('tuple', [P(k), REFUSE()])], {'kind': 'arg', 'a': C(rng.choice([NONE, SKIP]))}))]
+                if rng.random() < 0.4:
+                    # the same name defined again in a sibling entry evaluated first: it ends with its
+                    # own sub-spec and must not change what the later use means
+                    shadow = REFDEF(rng.choice([self.leaf(tgt), COAL([N('list', [REFUSE()])], {'kind': 'arg', 'a': TT()},
+                                                                     None, ['Exception'])]))
+                    pairs.insert(rng.randint(0, 1), ('r', shadow))
+                body = D(pairs)
             elif isinstance(tgt, (list, tuple)):
                 body = COAL([N('list', [REFUSE()]), self.gen(None, 1)],
                             rng.choice([None, {'kind': 'arg', 'a': C(SKIP)}]),
